@@ -12,6 +12,7 @@
 #include <stddef.h>
 #include <stdint.h>
 #include <sys/types.h>
+#include <sys/epoll.h>
 #include <errno.h>
 #undef errno
 #define errno (G.err)
@@ -23,7 +24,7 @@ struct iqueue { struct item* head_; struct item* tail_; };
 struct istack { struct item* head_; };
 struct io_epoll_context {
   struct iqueue localQueue_; _Bool remoteQueueReadSubmitted_; _Bool timersAreDirty_; struct aq remoteQueue_;
-  int remoteQueueEventFd_; int epollFd_; int timerFd_; int currentDueTime_;
+  int remoteQueueEventFd_; int epollFd_; int timerFd_; int currentDueTime_; int timers_;
 };
 
 struct vf_ghost {
@@ -38,7 +39,9 @@ struct vf_ghost {
   _Bool dead; struct item snap;     /* the operand item may have been executed and destroyed by the I/O thread */
   _Bool took;                       /* execute_pending_local took the batch */
   struct iqueue old_local;          /* harness copy of the local queue at entry (canaries only) */
-  unsigned epl_calls, timers_calls, try_calls, acquire_calls; _Bool acquire_blocking_ok;
+  unsigned epl_calls, timers_calls, try_calls;
+  unsigned epoll_waits, eventfd_reads, timerfd_reads, due_resets, throws; int wait_timeout; int wait_result;
+  struct iqueue cq_in;              /* completionQueue when the loop body was entered */
   _Bool rqrs_in;                    /* remoteQueueReadSubmitted_ when the loop body was entered */
 };
 static struct vf_ghost G;
@@ -49,6 +52,11 @@ static struct item W0, WT;         /* local queue window: head / tail */
 static struct item X0, XT;         /* window of a batch handed to schedule_local(queue) */
 static struct item R0, R1;         /* items of other producers in the remote queue (oldest / newest of a batch) */
 static struct iqueue PENDING;      /* execute_pending_local's local `pending` */
+enum { VF_MAX_EVENTS = /*@EXPR max_event_count*/ };
+static struct epoll_event completions[VF_MAX_EVENTS];   /* acquire_completion_queue_items' local event array */
+static struct iqueue completionQueue;                  /* ... and its local queue of newly completed items */
+static struct item C0;             /* a registered completion item reported ready by epoll */
+#define remote_queue_event_user_data ((void*)(/*@EXPR remote_queue_event_user_data*/))
 static _Bool SHOULD_STOP;          /* stop_operation::shouldStop_ (run_impl's reference parameter) */
 #define ON_IO (currentThreadContext == &S)   /* thread identity: is_running_on_io_thread() */
 static char vf_opaque_obj;
@@ -65,7 +73,7 @@ static void vf_guarantee(void* p, int o, int n);
 /* guarantee: the only atomic written outside the remote queue's own operations is an item's enqueued_, and it only moves
  * 0 -> 1 (handed to the context) and 1 -> 0 (taken out for execution) */
 static void vf_guarantee(void* p, int o, int n) {
-  VF_P(p == (void*)&IT.enqueued_ || p == (void*)&W0.enqueued_, "guarantee: the only atomic word written here is the enqueued_ flag of the item being scheduled / executed");
+  VF_P(p == (void*)&IT.enqueued_ || p == (void*)&W0.enqueued_ || p == (void*)&C0.enqueued_, "guarantee: the only atomic word written here is the enqueued_ flag of the item being scheduled / executed");
   VF_P((o == 0 && n == 1) || (o == 1 && n == 0), "C14-2 guarantee: enqueued_ only moves 0 -> 1 (schedule) and 1 -> 0 (execution)");
   VF_P(n == 1 ? !G.dead : 1, "no write to an item that may already have been executed");
   if (n == 1) { G.enq_incs++; } else { G.enq_decs++; }
@@ -280,25 +288,87 @@ __CPROVER_ensures(G.lin_count == 1)
 __CPROVER_ensures(AQ_RELY_CONSUMER(RQ, G.lin_new, S.remoteQueue_.head_)) /* afterwards only producers move the word: after taking the contents the queue stays active */
 __CPROVER_ensures(__CPROVER_return_value == 0 || __CPROVER_return_value == 1)
 __CPROVER_ensures(__CPROVER_return_value == (G.lin_new == INACT)) /* true <=> the queue was marked inactive */
-__CPROVER_ensures(__CPROVER_return_value ==> (G.lin_old == NULL && LOCAL_UNCHANGED)) /* C14-1: the loop marks itself inactive only on an empty queue */
+__CPROVER_ensures(__CPROVER_return_value ==> (G.lin_old == NULL && LOCAL_UNCHANGED && W0.next_ == __CPROVER_old(W0.next_) && WT.next_ == __CPROVER_old(WT.next_))) /* C14-1: the loop marks itself inactive only on an empty queue */
 __CPROVER_ensures(!__CPROVER_return_value ==> (G.lin_new == NULL && G.lin_old != NULL && G.lin_old != INACT && G.mr_calls == 1 && (void*)G.mr_arg == G.lin_old \
                    && S.localQueue_.tail_ == (struct item*)G.lin_old && S.localQueue_.head_ != NULL && (OLD_HEAD != NULL ==> (S.localQueue_.head_ == OLD_HEAD && OLD_TAIL_NEXT != NULL)))) /* everything that was in the inbox is now at the back of the local queue (newest item last) */
 /*@BODY try_schedule*/
 
 /* ---- run_impl: entry / exit segment, and the loop body against the contracts of its callees ---- */
 static void CTX_update_timers(struct io_epoll_context* self) { G.timers_calls++; S.timersAreDirty_ = VF_nondet_bool(); }   /* group epoll_timer */
-/* acquire_completion_queue_items: classified (assumption): blocks in epoll_wait only when the local queue is empty, and the
- * caller must have marked the remote queue inactive; clears remoteQueueReadSubmitted_ only after reading an eventfd wake-up,
- * which some producer wrote only after replacing the inactive sentinel (schedule_remote's contract + lemma_epoll_wake) */
+/* ---- acquire_completion_queue_items: epoll_wait, then one dispatch step per event (loop at cut points), then the ready
+ * completion items go to the local queue ---- */
+void* CTX_timer_user_data(struct io_epoll_context* self)
+/*@BODY timer_user_data*/
+static struct iqueue IQ_default(void) { struct iqueue q; q.head_ = /*@EXPR iq_head_init*/; q.tail_ = /*@EXPR iq_tail_init*/; return q; }
+/* epoll_wait(epollFd_, completions, 256, timeout): 0..256 events, or -1 with errno */
+static int EV_epoll_wait(struct io_epoll_context* self, int timeout) {
+  VF_P(self == &S && S.remoteQueueReadSubmitted_, "C14-1: the loop waits in epoll_wait only after marking the remote queue inactive (a later producer writes the eventfd)");
+  VF_P(timeout == 0 || (timeout == -1 && S.localQueue_.head_ == NULL), "C14-1: the loop blocks only when it has nothing to run locally; otherwise it only polls");
+  G.epoll_waits++; G.wait_timeout = timeout;
+  int r = VF_nondet_int();
+  __CPROVER_assume(r >= -1 && r <= VF_MAX_EVENTS);
+  if (r < 0) { G.err = VF_nondet_int(); }
+  G.wait_result = r;
+  return r;
+}
+static void EV_throw(int code) { VF_CANARY("epoll_wait failure reachable"); G.throws++; }
+/* read(remoteQueueEventFd_): consumes the wake-up.  The eventfd is readable only because some producer wrote it, which
+ * schedule_remote does only after its enqueue replaced the inactive sentinel; the loop has not re-installed it since */
+static ssize_t EV_eventfd_read(struct io_epoll_context* self, uint64_t* buf, size_t len) {
+  VF_CANARY("eventfd read reachable");
+  VF_P(self == &S && len == 8 && G.eventfd_reads == 0, "the wake-up is consumed once, 8 bytes");
+  G.eventfd_reads++;
+  vf_interfere();
+  __CPROVER_assume(S.remoteQueue_.head_ != INACT);
+  *buf = VF_nondet_u64();
+  return (ssize_t)len;
+}
+static ssize_t EV_timerfd_read(struct io_epoll_context* self, uint64_t* buf, size_t len) { VF_P(self == &S && len == 8, "timerfd read, 8 bytes"); G.timerfd_reads++; *buf = VF_nondet_u64(); return (ssize_t)len; }
+static void EV_currentDueTime_reset(struct io_epoll_context* self) { G.due_resets++; }
+
+#define LOCAL_WF_ABS ((S.localQueue_.head_ == NULL) == (S.localQueue_.tail_ == NULL))
+/* cut-point invariant of the dispatch loop: the flag is in step with the queue word; the completion queue is a well-formed
+ * queue of items marked enqueued; the local queue is as epoll_wait found it */
+#define ACQ_INV (G.i_am_consumer && (!S.remoteQueueReadSubmitted_ ==> S.remoteQueue_.head_ != INACT) && QSHAPE(&completionQueue, X0, XT) && QITEMS(&completionQueue, X0, XT) \
+                 && QSHAPE(LOCALQ, W0, WT))   /* the dispatch loop does not touch the local queue (frame) */
+static void acq__loop0(struct io_epoll_context* self) {
+  VF_P(ACQ_INV, "cut point (dispatch loop head): flag in step with the remote queue, completion queue well formed");
+  queue_build(&completionQueue, &X0, &XT);
+  if (VF_nondet_bool()) { S.remoteQueueReadSubmitted_ = 0; S.remoteQueue_.head_ = VF_nondet_bool() ? NULL : (void*)&R0; }
+  S.timersAreDirty_ = VF_nondet_bool();
+  __CPROVER_assume(ACQ_INV);
+}
+#define VF_ACQ_LOOP acq__loop0(self)
+
 void CTX_acquire_completion_queue_items(struct io_epoll_context* self)
 __CPROVER_requires(S.remoteQueueReadSubmitted_) /*P*/ /* C14-1: the loop goes to epoll_wait only after marking the remote queue inactive (a later producer writes the eventfd) */
-__CPROVER_requires(self == &S && G.acquire_calls == 0)
-__CPROVER_assigns(S.localQueue_, S.remoteQueueReadSubmitted_, S.timersAreDirty_, S.remoteQueue_.head_, G.acquire_calls, W0, WT)
-__CPROVER_ensures(G.acquire_calls == 1)
+__CPROVER_requires(self == &S && G.i_am_consumer && G.epoll_waits == 0 && G.throws == 0 && QSHAPE(LOCALQ, W0, WT) && QITEMS(LOCALQ, W0, WT))
+__CPROVER_assigns(S.localQueue_, S.remoteQueueReadSubmitted_, S.timersAreDirty_, S.remoteQueue_.head_, G.epoll_waits, G.wait_timeout, G.wait_result, G.err, G.throws, W0, WT, X0, XT, completionQueue, completions)
+__CPROVER_ensures(G.epoll_waits == 1) /* one epoll_wait per round */
+__CPROVER_ensures((G.wait_timeout == -1) == (__CPROVER_old(S.localQueue_.head_) == NULL)) /* blocks iff there is nothing to run locally */
+__CPROVER_ensures(!S.remoteQueueReadSubmitted_ ==> S.remoteQueue_.head_ != INACT) /* the flag is cleared only together with a consumed wake-up: the loop is an active consumer again */
+__CPROVER_ensures(G.throws == (G.wait_result < 0 ? 1 : 0))
+__CPROVER_ensures(G.wait_result < 0 ==> (LOCAL_UNCHANGED && S.remoteQueueReadSubmitted_)) /* a failing epoll_wait leaves the queues alone */
+__CPROVER_ensures(G.wait_result >= 0 ==> (completionQueue.head_ == NULL ? LOCAL_UNCHANGED : APPENDED(completionQueue.head_, completionQueue.tail_))) /* every ready completion item goes behind the local queue, in order */
+__CPROVER_ensures(LOCAL_WF_ABS)
+/*@BODY acquire*/
+
+#define EVENT_PTR(i) (completions[i].data.ptr)
+int acq__loop0_body(struct io_epoll_context* self, uint32_t i)
+__CPROVER_requires(self == &S && i < VF_MAX_EVENTS && ACQ_INV && (EVENT_PTR(i) == remote_queue_event_user_data || EVENT_PTR(i) == (void*)&S.timers_ || EVENT_PTR(i) == (void*)&C0))
+__CPROVER_requires(C0.enqueued_ == 0 && C0.execute_ != NULL && G.eventfd_reads == 0 && G.timerfd_reads == 0 && G.enq_incs == 0 && G.enq_decs == 0 && !G.dead && G.rqrs_in == S.remoteQueueReadSubmitted_ \
+                   && G.cq_in.head_ == completionQueue.head_ && G.cq_in.tail_ == completionQueue.tail_)
+__CPROVER_assigns(S.remoteQueueReadSubmitted_, S.timersAreDirty_, S.remoteQueue_.head_, completionQueue, C0, X0.next_, XT.next_, G.eventfd_reads, G.timerfd_reads, G.due_resets, G.enq_incs, G.enq_decs, G.err)
+__CPROVER_ensures(__CPROVER_return_value == VF_X_CONTINUE)
+__CPROVER_ensures(ACQ_INV || (completionQueue.tail_ == &C0)) /* invariant (the window of the completion queue is re-chosen at the next cut point) */
+__CPROVER_ensures((G.eventfd_reads == 1) == (EVENT_PTR(i) == remote_queue_event_user_data)) /* the eventfd is read for, and only for, the remote-queue event */
+__CPROVER_ensures(S.remoteQueueReadSubmitted_ == (G.rqrs_in && G.eventfd_reads == 0)) /* C14-1: the flag is cleared exactly when the wake-up was consumed */
 __CPROVER_ensures(!S.remoteQueueReadSubmitted_ ==> S.remoteQueue_.head_ != INACT)
-__CPROVER_ensures(S.remoteQueueReadSubmitted_ ==> S.remoteQueue_.head_ == __CPROVER_old(S.remoteQueue_.head_))
-__CPROVER_ensures(QSHAPE(LOCALQ, W0, WT) && QITEMS(LOCALQ, W0, WT))
-;
+__CPROVER_ensures(EVENT_PTR(i) == (void*)&S.timers_ ==> (S.timersAreDirty_ && G.timerfd_reads == 1 && G.due_resets == __CPROVER_old(G.due_resets) + 1))
+__CPROVER_ensures(EVENT_PTR(i) == (void*)&C0 ? (G.enq_incs == 1 && C0.enqueued_ == 1 && C0.execute_ == __CPROVER_old(C0.execute_) && completionQueue.tail_ == &C0 && C0.next_ == NULL \
+                   && (G.cq_in.head_ == NULL ? completionQueue.head_ == &C0 : (completionQueue.head_ == G.cq_in.head_ && (G.cq_in.tail_ == &X0 ? X0.next_ : XT.next_) == &C0))) \
+                   : (G.enq_incs == 0 && completionQueue.head_ == G.cq_in.head_ && completionQueue.tail_ == G.cq_in.tail_)) /* C14-2: a ready completion item goes 0 -> 1 and to the back of the completion queue; other events queue nothing */
+/*@LOOPBODY acquire.loop0.body*/
 
 /* loop invariant: the loop's flag is in step with the queue word: while the flag is clear the loop is an ACTIVE consumer
  * (the precondition of try_mark_inactive_or_dequeue_all); the local queue is well formed */
@@ -324,12 +394,12 @@ __CPROVER_ensures(SHOULD_STOP) /* run() returns only after the stop operation wa
 
 int run__loop0_body(struct io_epoll_context* self, const _Bool* shouldStop)
 __CPROVER_requires(self == &S && shouldStop == &SHOULD_STOP && RUN_INV && (/*@LOOPCOND run_impl.loop0.cond*/) && G.lin_count == 0 && G.mr_calls == 0 && !G.took && G.exec == 0 && G.enq_decs == 0 && G.enq_incs == 0 && !G.dead \
-                   && PENDING.head_ == NULL && PENDING.tail_ == NULL && G.acquire_calls == 0 && G.rqrs_in == S.remoteQueueReadSubmitted_ && G.timers_calls == 0)
-__CPROVER_assigns(S, W0, WT, R0, R1, PENDING, SHOULD_STOP, G)
+                   && PENDING.head_ == NULL && PENDING.tail_ == NULL && G.epoll_waits == 0 && G.throws == 0 && G.rqrs_in == S.remoteQueueReadSubmitted_ && G.timers_calls == 0)
+__CPROVER_assigns(S, W0, WT, X0, XT, R0, R1, PENDING, completionQueue, completions, SHOULD_STOP, G)
 __CPROVER_ensures(__CPROVER_return_value == VF_X_BREAK || __CPROVER_return_value == VF_X_CONTINUE)
 __CPROVER_ensures(__CPROVER_return_value == VF_X_BREAK ==> SHOULD_STOP) /* the loop is left only when the stop operation has run */
 __CPROVER_ensures(__CPROVER_return_value == VF_X_CONTINUE ==> (ON_IO && G.i_am_consumer && (!S.remoteQueueReadSubmitted_ ==> S.remoteQueue_.head_ != INACT) && ((S.localQueue_.head_ == NULL) == (S.localQueue_.tail_ == NULL)))) /* invariant re-established (the local queue is well formed; the window is re-chosen at the next cut point) */
-__CPROVER_ensures((__CPROVER_return_value == VF_X_CONTINUE && !G.rqrs_in && G.acquire_calls == 1) ==> (G.lin_count == 1 && G.lin_new == INACT && G.lin_old == NULL)) /* C14-1: the loop reaches epoll_wait only after ITS mark-inactive step found the remote queue empty */
+__CPROVER_ensures((__CPROVER_return_value == VF_X_CONTINUE && !G.rqrs_in && G.epoll_waits == 1) ==> (G.lin_count == 1 && G.lin_new == INACT && G.lin_old == NULL)) /* C14-1: the loop reaches epoll_wait only after ITS mark-inactive step found the remote queue empty */
 __CPROVER_ensures((__CPROVER_return_value == VF_X_CONTINUE && G.rqrs_in) ==> G.lin_count == 0) /* while marked inactive the loop does not touch the remote queue (it waits for the wake-up) */
 /*@LOOPBODY run_impl.loop0.body*/
 
@@ -339,7 +409,8 @@ static void h_init(void) {
   G.i_am_consumer = 0; G.lin_old = NULL; G.lin_new = NULL; G.lin_count = 0; G.it_next_at_lin = NULL; G.mr_calls = 0; G.mr_arg = NULL;
   currentThreadContext = VF_nondet_bool() ? &S : NULL;
   G.err = 0; G.enq_incs = 0; G.enq_decs = 0; G.eventfd_writes = 0; G.eventfd_value = 0; G.eventfd_len = 0; G.local_calls = 0; G.remote_calls = 0; G.signal_calls = 0;
-  G.exec = 0; G.exec_item = NULL; G.dead = 0; G.took = 0; G.epl_calls = 0; G.timers_calls = 0; G.try_calls = 0; G.acquire_calls = 0;
+  G.epoll_waits = 0; G.eventfd_reads = 0; G.timerfd_reads = 0; G.due_resets = 0; G.throws = 0; G.wait_timeout = 0; G.wait_result = 0;
+  G.exec = 0; G.exec_item = NULL; G.dead = 0; G.took = 0; G.epl_calls = 0; G.timers_calls = 0; G.try_calls = 0;
   PENDING.head_ = NULL; PENDING.tail_ = NULL; SHOULD_STOP = VF_nondet_bool();
   item_init(&IT); IT.execute_ = pick_fn();
   queue_build(LOCALQ, &W0, &WT);
@@ -386,6 +457,28 @@ void h_try_schedule(void) {
   VF_CANARY("after try_schedule_local_remote_queue_contents");
   if (r) { VF_CANARY("the loop can mark itself inactive"); } else { VF_CANARY("the loop can take remote items"); }
 }
+void h_acquire(void) {
+  h_init(); G.i_am_consumer = 1; currentThreadContext = &S;
+  S.remoteQueueReadSubmitted_ = 1; G.epoll_waits = 0; G.throws = 0;
+  CTX_acquire_completion_queue_items(&S);
+  VF_CANARY("after acquire_completion_queue_items");
+  if (G.wait_timeout == -1) { VF_CANARY("the loop can block"); } else { VF_CANARY("the loop can poll"); }
+  if (G.wait_result >= 0 && !S.remoteQueueReadSubmitted_) { VF_CANARY("a wake-up can be consumed"); }
+}
+void h_acq_loop0_body(void) {
+  h_init(); G.i_am_consumer = 1; currentThreadContext = &S;
+  uint32_t i = VF_nondet_u32(); __CPROVER_assume(i < VF_MAX_EVENTS);
+  int k = VF_nondet_int();
+  completions[i].data.ptr = k == 0 ? remote_queue_event_user_data : k == 1 ? (void*)&S.timers_ : (void*)&C0;
+  item_init(&C0); C0.execute_ = pick_fn(); C0.next_ = VF_nondet_bool() ? OPAQUE : NULL;
+  queue_build(&completionQueue, &X0, &XT); G.cq_in = completionQueue;
+  G.eventfd_reads = 0; G.timerfd_reads = 0; G.due_resets = 0;
+  G.rqrs_in = S.remoteQueueReadSubmitted_;
+  int r = acq__loop0_body(&S, i);
+  VF_CANARY("after one dispatch step");
+  if (G.enq_incs) { VF_CANARY("a completion item can be queued"); }
+  if (G.timerfd_reads) { VF_CANARY("a timer event can be dispatched"); }
+}
 void h_run_impl(void) {
   h_init(); G.i_am_consumer = 1; currentThreadContext = VF_nondet_bool() ? (struct io_epoll_context*)&vf_opaque_obj : NULL;
   __CPROVER_assume(S.remoteQueue_.head_ != INACT); S.remoteQueueReadSubmitted_ = 0;
@@ -399,7 +492,7 @@ void h_run_loop0_body(void) {
   if (r == VF_X_BREAK) { VF_CANARY("the run loop can stop"); }
   else {
     VF_CANARY("the run loop can go round");
-    if (G.acquire_calls) { VF_CANARY("the run loop can go to epoll_wait"); }
+    if (G.epoll_waits) { VF_CANARY("the run loop can go to epoll_wait"); }
     if (G.lin_count && G.lin_new == NULL) { VF_CANARY("the run loop can take remote items"); }
   }
 }
